@@ -13,6 +13,7 @@ VARIABLES l, good, nacc
 tvars == <<vars, l, good, nacc>>
 Ev == Trace[l]
 M(name, cond) == Must(Ev.tid, l, name, cond)
+D(name, cond) == Drift(Ev.tid, l, name, cond)
 
 TInit == Init /\ l = 1 /\ good = TRUE /\ nacc = 0
 
@@ -27,33 +28,45 @@ Begin ==
     /\ k' = 1 /\ it' = 0 /\ pc' = IF Ev.iters = 0 THEN "force" ELSE "lsq"
     /\ good' = TRUE /\ l' = l + 1 /\ UNCHANGED nacc
 
+(* internal state: conformance only (drift), not a property clause *)
 StateMatches ==
-    /\ M("nodes_time", \A u \in Nodes : time[u] = Ev.time[u + 1])
-    /\ M("edges_cavity", \A e \in 1..NE : cav[e] = <<Ev.cav[e][1], Ev.cav[e][2]>>)
-    /\ M("loop", (Ev.loop = "lsq" /\ (pc = "lsq" \/ (Ev.exit /\ pc = "force"))) \/ (Ev.loop = "force" /\ pc \in {"force", "done"}))
+    /\ D("nodes_time", \A u \in Nodes : time[u] = Ev.time[u + 1])
+    /\ D("edges_cavity", \A e \in 1..NE : cav[e] = <<Ev.cav[e][1], Ev.cav[e][2]>>)
+    /\ D("loop", (Ev.loop = "lsq" /\ (pc = "lsq" \/ (Ev.exit /\ pc = "force"))) \/ (Ev.loop = "force" /\ pc \in {"force", "done"}))
 
 (* an iteration of one of the two loops starts: check the state, then take the machine's step *)
 Iter ==
     /\ l <= Len(Trace) /\ Ev.kind = "head" /\ ~Ev.exit
-    /\ good' = (good /\ StateMatches)
-    /\ IF Ev.loop = "lsq" THEN Project ELSE Force
+    /\ StateMatches /\ good' = good
+    /\ IF Ev.loop = "lsq" /\ pc = "lsq" THEN Project
+       ELSE IF Ev.loop = "force" /\ pc = "force" THEN Force
+       ELSE UNCHANGED vars
     /\ l' = l + 1 /\ UNCHANGED nacc
 (* a loop ends: the state after its last step *)
 Exit ==
     /\ l <= Len(Trace) /\ Ev.kind = "head" /\ Ev.exit
-    /\ good' = (good /\ StateMatches)
+    /\ StateMatches /\ good' = good
     /\ l' = l + 1 /\ UNCHANGED <<vars, nacc>>
 (* the code returned from inside the alternating-projections loop *)
 Early ==
     /\ l <= Len(Trace) /\ Ev.kind = "end" /\ pc = "lsq" /\ EarlyExit
     /\ UNCHANGED <<l, good, nacc>>
+(* the properties are evaluated on what the call *returned* (Ev.time), whatever the machine did *)
+RT(u) == Ev.time[u + 1]
+RStrict == \A e \in 1..NE : RT(Par(e)) > RT(Chi(e))
+RAtLeastPlus == \A e \in 1..NE : RT(Par(e)) >= RT(Chi(e)) + Eps
+RMinimal == inst.iters = 0 => \A u \in Nodes : RT(u) = Lfp(u)
+RFixed == \A u \in inst.fixed :
+    \/ RT(u) = In(u)
+    \/ /\ RT(u) > In(u) /\ \E e \in 1..NE : Par(e) = u /\ RT(u) = Raised(RT(Chi(e)))
+RFeasibleUnchanged == Feasible => \A u \in Nodes : RT(u) = In(u)
 End ==
-    /\ l <= Len(Trace) /\ Ev.kind = "end" /\ pc # "lsq"
+    /\ l <= Len(Trace) /\ Ev.kind = "end" /\ (pc # "lsq" \/ ~(k = 1 /\ it < inst.iters /\ AllSlack))
     /\ LET ok == /\ good
-                 /\ M("ran to completion", pc = "done")
-                 /\ M("returned nodes_time", \A u \in Nodes : time[u] = Ev.time[u + 1])
-                 /\ M("Strict", Strict) /\ M("AtLeastPlus", AtLeastPlus) /\ M("Minimal", Minimal)
-                 /\ M("FixedOnlyMinimallyPushed", FixedOnlyMinimallyPushed)
+                 /\ D("machine ran to completion", pc = "done")
+                 /\ D("returned nodes_time equals the machine's final state", \A u \in Nodes : time[u] = RT(u))
+                 /\ M("Strict", RStrict) /\ M("AtLeastPlus", RAtLeastPlus) /\ M("Minimal", RMinimal)
+                 /\ M("FixedOnlyMinimallyPushed", RFixed) /\ M("UnchangedIfFeasible", RFeasibleUnchanged)
        IN  /\ nacc' = nacc + (IF ok THEN 1 ELSE 0)
            /\ Emit("verdict", [tid |-> Ev.tid, ok |-> ok])
     /\ l' = l + 1 /\ good' = TRUE /\ UNCHANGED vars
